@@ -10,6 +10,7 @@ import (
 	"unicode/utf8"
 
 	"github.com/jotaen/klog/klog"
+	"github.com/jotaen/klog/klog/app"
 	"github.com/jotaen/klog/klog/app/cli"
 	cliutil "github.com/jotaen/klog/klog/app/cli/util"
 	"github.com/jotaen/klog/klog/service"
@@ -384,6 +385,22 @@ func c20Text(c *fw.Ctx, fam string, idx int, text string, viaCLI bool) {
 			if why := c10ParseJSON(strings.TrimSuffix(r.Stdout, "\n"), facts, path); why != "" {
 				c.Violation("json-errors", cs(), why+"\n"+r.Stdout)
 				return
+			}
+		}
+		// two input files, a valid one first: the same errors, attributed to the invalid file
+		if idx%4 == 0 {
+			good := clidrv.WriteFile(dir, "c20good.klg", "2000-01-01\n    1h\n\n2000-01-02\n    2h\n")
+			for _, order := range [][]string{{good, path}, {path, good}} {
+				both := cliutil.InputFilesArgs{File: []app.FileOrBookmarkName{app.FileOrBookmarkName(order[0]), app.FileOrBookmarkName(order[1])}}
+				r := clidrv.Exec(home, clidrv.Opts{Now: fixedNow}, &cli.Json{InputFilesArgs: both})
+				if r.Panicked || r.Code != 0 {
+					c.Violation("json-errors-failed", cs(), fmt.Sprintf("klog json with a valid and the invalid file failed: exit %d panic %v\n%s", r.Code, r.PanicVal, r.Stack))
+					return
+				}
+				if why := c10ParseJSON(strings.TrimSuffix(r.Stdout, "\n"), facts, path); why != "" {
+					c.Violation("json-errors-two-files", cs(), fmt.Sprintf("with a valid file %s the invalid one: %s\n%s", map[bool]string{true: "in front of", false: "after"}[order[0] == good], why, r.Stdout))
+					return
+				}
 			}
 		}
 		// the terminal report shows the same numbers
